@@ -23,6 +23,10 @@ func c10Abstract(c *core.Ctx) {
 	c10Files(c)
 	c10Bounds(c)
 	c10Descriptors(c)
+	c10Modes(c)
+	c10MergeDelta(c)
+	c.Rule("ORDABS.inference-takes-every-literal-shape", "bounds checking (newBoundsAnalyzer, BoundsCheck and the type inference below them), read from source and evaluated on the small-program family, among it rules that read their body through a temporal literal with an operator and without an interval annotation: it returns on every program - no nil interval is dereferenced (obligation shared with C11)", 1)
+	c.Under("ORDABS.inference-takes-every-literal-shape", []string{rC11Infer}, func() { c11Inference(c) })
 	c10FunctionPositions(c)
 	c.Rule("ORDABS.group-by-keys-are-variables", "the grouping code asserts that every group_by key is a variable: RewriteClause and CheckRule, read from source and evaluated on aggregating clauses whose group_by names a constant next to a variable (every one- and two-premise body of the C04 family), reject every such clause (obligation shared with C04)", 2)
 	c.Under("ORDABS.group-by-keys-are-variables", []string{rC04Perm, rC04Safe, rC04Eval}, func() {
